@@ -109,8 +109,18 @@ func firstStatus(out string) string {
 func (vc *VC) Solve(dir string, quickMs int, raceS int) {
 	os.MkdirAll(dir, 0o755)
 	base := filepath.Join(dir, sanitize(relFuncName(vc.fn)))
+	if vc.lemma != nil {
+		base = filepath.Join(dir, "lemma."+sanitize(vc.lemma.Name))
+	}
 	obls := vc.sortedObls()
 	if len(obls) == 0 {
+		return
+	}
+	if len(vc.unsup) > 0 {
+		for _, o := range obls {
+			o.Status = "unsupported"
+			o.Model = "function is outside the supported subset: " + strings.Join(sortedKeys(vc.unsup), "; ")
+		}
 		return
 	}
 	script := vc.batchScript(quickMs)
